@@ -74,6 +74,12 @@ pub struct ServerWire {
     pub c2s: Vec<u8>,
     pub s2c: Vec<u8>,
     pub rt_seed: u64,
+    /// `Server::timeout` in ms; the handler latency of `script` decides whether it expires
+    #[serde(default)]
+    pub srv_timeout_ms: Option<u32>,
+    /// the handler also attaches a `grpc-encoding: zstd` metadata entry of its own
+    #[serde(default)]
+    pub forged_encoding: bool,
 }
 
 #[derive(Clone, Debug, Serialize, Deserialize)]
@@ -158,9 +164,15 @@ fn server_strategy() -> BoxedStrategy<Case> {
                 pipe_schedule(),
                 pipe_schedule(),
                 any::<u64>(),
+                proptest::option::weighted(0.25, prop_oneof![Just(1u32), 2u32..=20, 30u32..=500]),
+                proptest::bool::weighted(0.25),
             )
-                .prop_map(move |(bad_path, script, send, accept_hdr, req_msgs, c2s, s2c, rt_seed)| {
-                    Case::Server(ServerWire { shape, prost, bad_path, script, send, accept_hdr, req_msgs, c2s, s2c, rt_seed })
+                .prop_map(move |(bad_path, script, send, accept_hdr, req_msgs, c2s, s2c, rt_seed, srv_timeout_ms, forged_encoding)| {
+                    let mut script = script;
+                    if forged_encoding {
+                        script.initial_md.push(crate::infra::md::MdEntry { name: "grpc-encoding".into(), val: crate::infra::blob::hex(b"zstd") });
+                    }
+                    Case::Server(ServerWire { shape, prost, bad_path, script, send, accept_hdr, req_msgs, c2s, s2c, rt_seed, srv_timeout_ms, forged_encoding })
                 })
         })
         .boxed()
@@ -610,6 +622,9 @@ fn run_server(c: &ServerWire, o: &mut Outcome) -> Result<(), Failure> {
     let sh2 = sh.clone();
     let res = rt::run_virtual(c.rt_seed, Duration::from_secs(3600), async move {
         let mut server = tonic::transport::Server::builder();
+        if let Some(t) = cw.srv_timeout_ms {
+            server = server.timeout(Duration::from_millis(t as u64));
+        }
         let router = if cw.prost {
             let mut s = vt::test_server::TestServer::new(sh2.clone());
             for e in &cw.send {
@@ -675,6 +690,20 @@ fn run_server(c: &ServerWire, o: &mut Outcome) -> Result<(), Failure> {
         Ok(Ok(s)) => s,
     };
     ensure!(seen.error.is_none(), "C03/response-stream-error", "response failed at the HTTP/2 level: {:?}", seen.error);
+    // a server timeout shorter than the handler latency turns the call into a CANCELLED trailers-only response
+    let expired = match c.srv_timeout_ms {
+        Some(t) if c.bad_path == 0 => {
+            let l = c.script.latency_ms as u64;
+            if (t as u64).abs_diff(l) < 2 {
+                o.label("timeout_tie_not_judged");
+                return Ok(());
+            }
+            (t as u64) < l
+        }
+        _ => false,
+    };
+    o.label_if(expired, "server_timeout_expired");
+    o.label_if(c.forged_encoding, "handler_metadata_named_grpc_encoding");
     ensure!(seen.status == 200, "C03/response-http-status", "HTTP status {}", seen.status);
     let ct = seen.headers.get("content-type").map(|v| v.as_bytes().to_vec()).unwrap_or_default();
     ensure!(ct == b"application/grpc" || ct.starts_with(b"application/grpc+"), "C03/response-content-type", "response content-type {:?}", String::from_utf8_lossy(&ct));
@@ -686,8 +715,13 @@ fn run_server(c: &ServerWire, o: &mut Outcome) -> Result<(), Failure> {
     if in_headers == 1 {
         // trailers-only: body-less
         ensure!(seen.body.is_empty() && seen.trailers.is_none(), "C03/trailers-only-with-body", "trailers-only response carries {} body bytes / trailers {:?}", seen.body.len(), seen.trailers.is_some());
+        // Trailers-Only = the HEADERS frame itself ends the stream (gRPC peers other than tonic treat a
+        // grpc-status in a non-final HEADERS frame as initial metadata and then miss the trailers)
+        ensure!(seen.headers_end_stream, "C03/trailers-only-not-end-stream", "a response with grpc-status in its headers did not end the stream with the HEADERS frame (an empty DATA frame followed)");
         let (code, msg) = read_status_block(&seen.headers, "trailers-only headers")?;
-        let want: Option<(i32, String)> = if c.bad_path != 0 {
+        let want: Option<(i32, String)> = if expired {
+            Some((1, "Timeout expired".to_string()))
+        } else if c.bad_path != 0 {
             Some((12, String::new()))
         } else {
             c.script.outcome.as_ref().map(|s| (s.code, s.message.clone()))
@@ -705,6 +739,7 @@ fn run_server(c: &ServerWire, o: &mut Outcome) -> Result<(), Failure> {
         let t = seen.trailers.as_ref().unwrap();
         let (code, msg) = read_status_block(t, "trailers")?;
         ensure!(c.bad_path == 0, "C03/unknown-path-dispatched", "unknown path got a streamed response");
+        ensure!(!expired, "C03/timeout-not-enforced", "Server::timeout {:?} ms expired before the handler latency {} ms, but a normal response was produced", c.srv_timeout_ms, c.script.latency_ms);
         let handler_err = c.script.outcome.is_some() && (!streaming_resp || c.script.err_kind == Some(ErrKind::Handler));
         ensure!(!handler_err || code != 0, "C03/handler-error-reported-ok", "handler failed but trailers say OK");
         let want_msgs: Vec<Vec<u8>> = if handler_err {
@@ -741,14 +776,14 @@ impl Prop for C03 {
         run(c, o)
     }
     fn rule() -> &'static str {
-        "proptest over three families. Body: EncodeBody for both roles x {identity,gzip,deflate,zstd} x per-response opt-out x codec {raw, prost} x buffer settings x 0-8 messages x source outcome {ends OK, Err(status) after p messages, message p over the encoding limit} x source Pending pattern; polled like hyper until the end and then 3 more times. Client wire: generated clients (4 shapes, raw/prost, send_compressed, accept_compressed subsets, origin with/without path prefix) against a raw h2 server (no tonic) over the in-memory pipe. Server wire: a raw h2 client (no tonic) against the generated tonic server with scripted handlers (OK, handler error, stream-item error), unknown paths, send_compressed subsets, grpc-accept-encoding offers. Oracle: independent frame parser (flag 0/1, big-endian length == payload length), payload == codec serialisation directly or after independent decompression + magic check for the announced grpc-encoding; server bodies end in exactly one trailers block with a decimal grpc-status and percent-encoded grpc-message, is_end_stream afterwards and nothing more; client bodies never carry trailers; requests are POST /prefix/pkg.Svc/Method with content-type application/grpc and te: trailers; responses are HTTP 200 application/grpc with grpc-status exactly once (body-less trailers-only or final trailers). Non-trivial: >=1 message and (compressed or error outcome or >=2 frames); every wire scenario."
+        "proptest over three families. Body: EncodeBody for both roles x {identity,gzip,deflate,zstd} x per-response opt-out x codec {raw, prost} x buffer settings x 0-8 messages x source outcome {ends OK, Err(status) after p messages, message p over the encoding limit} x source Pending pattern; polled like hyper until the end and then 3 more times. Client wire: generated clients (4 shapes, raw/prost, send_compressed, accept_compressed subsets, origin with/without path prefix) against a raw h2 server (no tonic) over the in-memory pipe. Server wire: a raw h2 client (no tonic) against the generated tonic server with scripted handlers (OK, handler error, stream-item error), unknown paths, send_compressed subsets, grpc-accept-encoding offers. Oracle: independent frame parser (flag 0/1, big-endian length == payload length), payload == codec serialisation directly or after independent decompression + magic check for the announced grpc-encoding; server bodies end in exactly one trailers block with a decimal grpc-status and percent-encoded grpc-message, is_end_stream afterwards and nothing more; client bodies never carry trailers; requests are POST /prefix/pkg.Svc/Method with content-type application/grpc and te: trailers; responses are HTTP 200 application/grpc with grpc-status exactly once (body-less trailers-only or final trailers). Non-trivial: >=1 message and (compressed or error outcome or >=2 frames); every wire scenario. Wave-3 additions: server-side Server::timeout in the wire scenario (CANCELLED at the deadline, sent as trailers-only HEADERS with END_STREAM), a handler metadata entry named grpc-encoding (must not change what the frames are encoded with / announced as)."
     }
     fn assumptions() -> Vec<String> {
         vec!["handler error statuses never carry Code::Ok".into(), "a client body is not polled again after it failed (hyper resets the stream)".into()]
     }
     fn cases(t: Tier) -> u64 {
         match t {
-            Tier::Quick => 27_000,
+            Tier::Quick => 80_000,
             Tier::Thorough => 640_000,
         }
     }
